@@ -552,6 +552,9 @@ func checkSinkProvenance(p *Program, r *Report, gates map[*types.TypeName]bool) 
 								}
 								return true
 							}
+							if identityAccessor(x.Fn) {
+								return true // c.str(): look at what the receiver is
+							}
 							if x.Fn != nil && x.Fn.Pkg != nil && strings.HasPrefix(x.Fn.Pkg.Pkg.Path(), modulePath) {
 								// accessor of another safe value, or a helper of a validated constructor
 								if x.Fn.Name() == "String" {
